@@ -269,10 +269,25 @@ func RandCalls(r *rand.Rand, c *Case, n int, vetoP float64, maxVeto int) []Call 
 				call.Veto = append(call.Veto, []any{b + 1, h})
 			}
 		}
+		// handlers that themselves mutate: a final handler of binding 1 issues
+		// one or two more mutations (queued behind the running transition)
+		if c.On && NestP > 0 && r.Float64() < NestP && len(c.Binds) > 0 && len(c.Binds[0].Fin) > 0 {
+			k := 1 + r.Intn(2)
+			for j := 0; j < k; j++ {
+				h := c.Binds[0].Fin[r.Intn(len(c.Binds[0].Fin))]
+				ty := []string{"add", "add", "remove", "set"}[r.Intn(4)]
+				call.Nest = append(call.Nest, NestAt{At: []any{1, h}, Type: ty,
+					Called: pickCalled(r, c.Names, ty != "set")})
+			}
+		}
 		calls = append(calls, call)
 	}
 	return calls
 }
+
+// NestP is the probability that a generated call carries handler-issued
+// (nested) mutations.
+var NestP = 0.0
 
 func SortedNames(sch am.Schema) am.S {
 	var n am.S
